@@ -76,6 +76,8 @@ class Harness:
         self.funcs |= ctx.funcs
         self.aten_ops |= set(ctx.ops)
         self.stubs |= ctx.stubs
+        from .engine import INF_NOTES
+        self.stubs |= INF_NOTES
         self.paths += 1
         self.decisions += len(ctx.trace)
         self.solver_time += ctx.solver_time
